@@ -194,6 +194,8 @@ def run_verus_property(pid, cfg, tier, seed, clock):
         if baseline is None:
             undecided.append("no baseline_obligations file")
             baseline = set()
+        if only:
+            baseline = baseline & set(only)
         missing = baseline - set(names)
         for m_ in sorted(missing):
             undecided.append("baseline obligation %s no longer generated (contract file or extraction changed)" % m_)
